@@ -10,28 +10,53 @@
 (* are padded with "settle".                                                *)
 (***************************************************************************)
 EXTENDS Routing, Json
-CONSTANT Depth
-VARIABLE hist
-svars == <<vars, hist>>
+CONSTANTS Depth, MaxIdle,
+          HoldClose   \* TRUE: the harness holds a broken sender between close(sendMsgChan) and its deregistration
+                      \* (hook sender.run.afterClose), so SenderGone becomes a boundary step
+VARIABLES hist, idles,
+          tags    \* rare branches of the design this behaviour has exercised (used to prioritise replay)
+svars == <<vars, hist, idles, tags>>
 Cmd(r) == hist' = Append(hist, r)
 More == Len(hist) < Depth + 1
 Header == [c |-> "config", route |-> route]
-SimInit == Init /\ hist = <<Header>>
+SimInit == Init /\ hist = <<Header>> /\ idles = 0 /\ tags = {}
 EnvStep ==
   \/ \E s \in Src : \E k \in 1..MaxBatch : RecvTasks(s, k) /\ Cmd([c |-> "tasks", s |-> s, k |-> k])
   \/ \E s \in Src : RecvWm(s) /\ Cmd([c |-> "wm", s |-> s])
   \/ \E t \in Tgt : SenderSend(t) /\ Cmd([c |-> "send", t |-> t])
   \/ \E t \in Tgt : TgtAck(t) /\ Cmd([c |-> "ack", t |-> t])
   \/ \E t \in Tgt : \E i \in 1..MaxId : TgtDone(t, i) /\ Cmd([c |-> "done", t |-> t, i |-> i])
-  \/ \E t \in Tgt : BreakTgt(t) /\ Cmd([c |-> "breaktgt", t |-> t])
+  \/ \E t \in Tgt : BreakTgt(t) /\ Cmd([c |-> IF HoldClose THEN "holdtgt" ELSE "breaktgt", t |-> t])
+  \/ \E t \in Tgt : HoldClose /\ up[t] = "closed" /\ SenderGone(t) /\ Cmd([c |-> "releasetgt", t |-> t])
   \/ \E t \in Tgt : ReopenTgt(t) /\ Cmd([c |-> "reopentgt", t |-> t])
   \/ \E s \in Src : BreakSrc(s) /\ Cmd([c |-> "breaksrc", s |-> s])
   \/ \E s \in Src : ReopenSrc(s) /\ Cmd([c |-> "reopensrc", s |-> s])
-Pad == ~ENABLED (Env \/ Fault) /\ Cmd([c |-> "settle"]) /\ UNCHANGED vars
+\* one second without traffic: every keep-alive timer that can fire does (they change nothing in a correct design)
+Idle == /\ idles < MaxIdle /\ (\E t \in Tgt : Live(t) /\ lastSent[t] > 0) /\ idles' = idles + 1
+        /\ Cmd([c |-> "idle"]) /\ UNCHANGED vars
+Pad == ~ENABLED (Env \/ Fault) /\ Cmd([c |-> "settle"]) /\ UNCHANGED <<vars, idles>>
+\* internal steps the proxy takes by itself (with HoldClose the deregistration of a closed sender is not one of them)
+Auto == IF HoldClose
+        THEN \/ \E s \in Src, t \in Tgt : Deliver(s, t) \/ Bcast(s, t) \/ ForwardAck(t, s) \/ ReplayWm(t, s)
+             \/ \E t \in Tgt : SenderDequeue(t) \/ SenderRecvAck(t) \/ FinishAck(t) \/ SenderClose(t)
+             \/ \E s \in Src : Aggregate(s) \/ SrcStop(s)
+        ELSE Internal
+AggMinOf(s) == LET m == Head(ackChan[s])
+                   abt == [ackByTarget[s] EXCEPT ![m.tgt] = m.a]
+               IN Min({abt[t] : t \in {u \in Tgt : abt[u] # Absent}})
+Aggregated(s) == ackChan[s] # <<>> /\ srcUp[s] = "up" /\ Len(ackChan'[s]) < Len(ackChan[s])
+NewTags ==
+  (IF \E s \in Src : Aggregated(s) /\ AggMinOf(s) < lastSentMin[s] THEN {"lowmin"} ELSE {})
+  \cup (IF \E s \in Src : Aggregated(s) /\ lastAck[s] > 0 /\ ackByTarget[s][Head(ackChan[s]).tgt] = Absent THEN {"latefirstack"} ELSE {})
+  \cup (IF \E s \in Src : Aggregated(s) /\ lastHigh[s] > 0 /\ AggMinOf(s) > lastHigh[s] THEN {"clamp"} ELSE {})
+  \cup (IF \E t \in Tgt : spc[t] = "idle" /\ spc'[t] = "fwd" /\ fallback'[t] THEN {"fallback"} ELSE {})
+  \cup (IF \E s \in Src, t \in Tgt : t \in bcastTo[s] /\ t \notin bcastTo'[s] /\ chan'[t] = chan[t] THEN {"wmdrop"} ELSE {})
+  \cup (IF \E t \in Tgt : replayTo[t] # replayTo'[t] /\ chan'[t] # chan[t] THEN {"replay"} ELSE {})
 SimNext ==
   /\ More
-  /\ \/ Internal /\ UNCHANGED hist
-     \/ ~ENABLED Internal /\ (EnvStep \/ Pad)
-  /\ (Len(hist') = Depth + 1 => PrintT(ToJson(hist')))
+  /\ \/ Auto /\ UNCHANGED <<hist, idles>>
+     \/ ~ENABLED Auto /\ ((EnvStep /\ UNCHANGED idles) \/ Idle \/ Pad)
+  /\ tags' = tags \cup NewTags
+  /\ (Len(hist') = Depth + 1 => PrintT(ToJson(Append(hist', [c |-> "tags", tags |-> tags']))))
 SimSpec == SimInit /\ [][SimNext]_svars
 =============================================================================
